@@ -401,6 +401,14 @@ def main(tier):
     ck = common.Check('C05', tier)
     mac = refdata.Macros()
     AV = float(mac.all['AVOGNUM'])
+    # the constants of the identities are the documented ones (CODATA 2010, refdata.CONSTANTS), not merely whatever the header of the tree
+    # under observation says: a header whose N_A differs shifts every per-atom function together with every reference built from it
+    for name, gold in refdata.CONSTANTS.items():
+        have = mac.all.get(name)
+        if have is None or abs(float(have) - gold) > 1e-15 * abs(gold):
+            ck.violation('c05:constant:%s' % name, 'the public header defines %s = %r, the documented value is %r' % (name, have, gold), dict(macro=name, header=have, documented=gold))
+    if abs(float(mac.all['RE2']) - (float(mac.all['R_E']) * 1e14) ** 2) > 1e-8 * float(mac.all['RE2']):
+        ck.violation('c05:constant:RE2', 'RE2 = %r is not the square of R_E = %r m in barn' % (mac.all['RE2'], mac.all['R_E']), dict(RE2=mac.all['RE2'], R_E=mac.all['R_E']))
     rng = np.random.default_rng(common.seed())
     st = Stats()
     knots = table_knots()
